@@ -397,6 +397,19 @@ def main():
         results += run_cli(build, driver, cli_cases)
         timing["cli_s"] = round(time.time() - t1, 1)
 
+    # a slice of FRESH cases on the unsanitised build: AddressSanitizer keeps freed memory in quarantine, so anything that
+    # depends on an address being reused at once (memo tables keyed by pointers, containers ordered by address) behaves
+    # differently there than in the build users run
+    if cfg.get("plain") and not args.n:
+        t1 = time.time()
+        bplain = build_repo.ensure_build("plain")
+        pcases = props.generate(prop, cfg["plain"][tier], seed * 104729 + 7, tier)
+        rs = run_cases(bplain, driver, pcases, cfg.get("timeout", 10))
+        for r in rs:
+            r["via"] = "plain"
+        results += rs
+        timing["plain_s"] = round(time.time() - t1, 1)
+
     # C20 thorough: a valgrind-memcheck pass (uninitialised values, invalid reads the sanitizers' redzones miss) of an
     # unsanitised build over the corpus and a sample of every kind
     if cfg.get("only_crashes") and tier == "thorough":
@@ -529,7 +542,7 @@ def write_evidence(prop, tier, seed, cfg, aud, results, knowns, wall, nviol, ext
             tags[t] = tags.get(t, 0) + 1
     kinds = {}
     for r in results:
-        k = r["case"].split(" ", 1)[0] + ("(cli)" if r.get("via") == "cli" else "")
+        k = r["case"].split(" ", 1)[0] + ("(cli)" if r.get("via") == "cli" else "(unsanitised build)" if r.get("via") == "plain" else "")
         kinds[k] = kinds.get(k, 0) + 1
     samples = [dict(case=r["case"], implementation=r["result"][:400], verdict=r["verdict"]) for r in results[:3]]
     mid = len(results) // 2
